@@ -60,14 +60,26 @@ func GetIPAtIndex(ipNet net.IPNet, index int64) net.IP {
 		ip = *netRange.Last
 		index++
 	}
+	size := net.IPv6len
 	if ip.To4() != nil {
 		val.SetBytes(ip.To4())
+		size = net.IPv4len
 	} else {
 		val.SetBytes(ip)
 	}
 	val.Add(val, big.NewInt(index))
-	if ipNet.Contains(val.Bytes()) {
-		return val.Bytes()
+	if val.Sign() < 0 {
+		return nil
+	}
+	// big.Int.Bytes drops leading zero bytes, restore the address length
+	res := val.Bytes()
+	if len(res) < size {
+		padded := make([]byte, size)
+		copy(padded[size-len(res):], res)
+		res = padded
+	}
+	if ipNet.Contains(res) {
+		return res
 	}
 	return nil
 }
